@@ -26,6 +26,15 @@ CLAIMED.update({
             "constant-table extraction (map literals, switch tables) and finite relation checking; normalised clone comparison", "§4 C20"),
 })
 
+CLAIMED.update({
+    "C10": ("Static decision of structural necessary conditions of result stability: no expression aliasing a pooled buffer is returned or stored by a pool user; the reset of every pooled struct assigns every field and reset+Put are deferred right after Get; every package-level variable is never written after initialisation (or is a tabled pool/once object). Does not decide value equality with a fresh process.",
+            "typed-AST alias analysis of pool users, field-coverage of reset methods, SSA write-set of package variables", "§4 C10"),
+    "C11": ("Static decision of structural necessary conditions of race-freedom: pooled-buffer aliasing (as C10), locking discipline of the four generated containers (mode, deferred unlock, helper callers, no re-entrance), once-guarded fields written only under their once closure, and a type-based write-effect rule showing the read-only API writes no field of the persistent model outside once closures and held locks. Type-based, not object-based: not a proof of race-freedom.",
+            "SSA lock/once typestate checks + type-based write effects over the VTA call graph", "§4 C11"),
+    "C19": ("Static decision of structural necessary conditions of ordered-map behaviour for the four generated containers: removal from the order list is control-dependent on the key being found; no method mutates the order list while ranging over it; every data store keeps data/order in bijection; constructors cannot create duplicates; the three map instances are identical modulo types; lock discipline; JSON separator discipline. Does not decide equivalence with a reference dictionary over all operation histories.",
+            "SSA dominance/control-dependence checks, range-mutation effects, normalised sibling comparison", "§4 C19"),
+})
+
 NOT_YET = {}
 
 NOT_APPLICABLE = {
